@@ -80,7 +80,11 @@ def dom_forms(d):
     out = [("dom:d.", "%d." % d, day("dom", d)),
            ("dom:dth", "%d%s" % (d, ordinal_suffix(d)), day("dom", d)),
            ("dom:the dth", "the %d%s" % (d, ordinal_suffix(d)), day("dom", d)),
-           # ("Nten" is not a form of the grammar: it collides with the English hour word "ten")
+           # the German ordinal forms the day pattern lists (s?ten): "5ten", "1sten", "am 20sten" (once kept out of the grammar because
+           # "ten" was read as ten o'clock - that was a defect of the library, repaired in f5929e0)
+           ("dom:dten", "%dten" % d, day("dom", d)),
+           ("dom:dsten", "%dsten" % d, day("dom", d)),
+           ("dom:am dten", "am %d%s" % (d, "sten" if d >= 20 else "ten"), day("dom", d)),
            ("dom:dter", "%dter" % d, day("dom", d)),
            ("dom:am d.", "am %d." % d, day("dom", d))]
     return out
